@@ -216,6 +216,10 @@ theorem cancelPromises_acc (l : List Nat) (hr : RclearAll P) (h : Tr P s0 s) :
   unfold Streams.refPollData
   have := recvPollData_acc hg k t hp h
   fid_grind
+@[grind ←] theorem refPollPushed_acc (k : Nat) (t : String) (hp : RpopAll P) (h : Tr P s0 s) : Tr P s0 (s.refPollPushed k t).1 := by
+  unfold Streams.refPollPushed
+  have := recvPollPushed_acc hg k t hp h
+  fid_grind
 @[grind ←] theorem pollPendingOpen_acc (p : Option Nat) (t : String) (h : Tr P s0 s) : Tr P s0 (s.pollPendingOpen p t).1 := by
   unfold Streams.pollPendingOpen; fid_grind
 
